@@ -335,7 +335,9 @@ func stepLies() []lie {
 		L("inverted", hStep, func(p *big.Int, in, hon []*big.Int) []*big.Int {
 			return stepVec(len(hon), posOf(in, len(hon)), in[2], in[1])
 		}),
-		L("all-start", hStep, func(p *big.Int, in, hon []*big.Int) []*big.Int { return stepVec(len(hon), int64(len(hon)), in[1], in[2]) }),
+		L("all-start", hStep, func(p *big.Int, in, hon []*big.Int) []*big.Int {
+			return stepVec(len(hon), int64(len(hon)), in[1], in[2])
+		}),
 		L("all-end", hStep, func(p *big.Int, in, hon []*big.Int) []*big.Int { return stepVec(len(hon), 0, in[1], in[2]) }),
 		L("step-at-(pos mod n)", hStep, func(p *big.Int, in, hon []*big.Int) []*big.Int {
 			n := len(hon)
@@ -502,9 +504,9 @@ func runSelCase(r *vcore.Run, a *acc, s *sysT, sc selCase, doLies bool) {
 	res := c.honest()
 	switch sc.exp.kind {
 	case kExact:
-		r.SampleClass(sc.fam+"/honest-exact", map[string]any{"system": s.String(), "inputs": vstr(sc.in), "outputs": vstr(res.outs)})
+		a.sample(sc.fam+"/honest-exact", map[string]any{"system": s.String(), "inputs": vstr(sc.in), "outputs": vstr(res.outs)})
 	case kUnsat:
-		r.SampleClass(sc.fam+"/out-of-domain-rejected", map[string]any{"system": s.String(), "inputs": vstr(sc.in), "class": sc.exp.class, "solver_said": errStr(res.err)})
+		a.sample("selector/out-of-domain-rejected", map[string]any{"system": s.String(), "inputs": vstr(sc.in), "class": sc.exp.class, "solver_said": errStr(res.err)})
 	}
 	c.confirm()
 	if doLies {
@@ -603,7 +605,7 @@ func selectorJobs(r *vcore.Run) []job {
 							must, may := ctorOracle(f.p, sub(pow2(nb), bi(1)), false)
 							if n > 1 && bits.OnesCount(uint(n)) != 1 && (must || may) {
 								a.count("selector.Mux.compile-refused(field-too-small-for-n)", 1)
-								r.SampleClass("selector.Mux/compile-refused", map[string]any{"field": f.name, "n": n, "error": firstLine(err)})
+								a.sample("selector.Mux/compile-refused", map[string]any{"field": f.name, "n": n, "error": firstLine(err)})
 								continue
 							}
 							a.count("compile.REFUSED-valid-config", 1)
@@ -845,7 +847,7 @@ func selectorJobs(r *vcore.Run) []job {
 							r.Eval("compile|"+f.name+"|"+bld+"|"+g.name, true)
 							if _, err := compileG(f, bld, g); err != nil {
 								a.count("selector.Partition/Slice.len1-compile-panic(stepMask:outputLen>=2;undocumented-in-Partition/Slice)", 1)
-								r.SampleClass("selector.Partition/len1-compile-panic", map[string]any{"field": f.name, "gadget": g.name, "error": firstLine(err)})
+								a.sample("selector.Partition/len1-compile-panic", map[string]any{"field": f.name, "gadget": g.name, "error": firstLine(err)})
 							} else {
 								a.count("selector.Partition/Slice.len1-compiles", 1)
 							}
